@@ -21,7 +21,7 @@ pub fn exec(it: &mut Interp, toks: &[&str], out: &mut Vec<String>) -> bool {
                 "ic" => oracle_ic(o),
                 "closed" => oracle_closed(o),
                 "defaults" => oracle_defaults(o),
-                _ => return false,
+                _ => return crate::ext3::exec(it, toks, out),
             };
             match r {
                 Ok(()) => out.push("oracle ok".to_string()),
